@@ -33,6 +33,7 @@ type txnProfile struct {
 	oracle    func(lab *txnLab, before map[string]map[string]map[string]val.Val, beforeRefs []oRef, ops []TOp, ob tObs) string
 	nontriv   func(ops []TOp, ob tObs) bool
 	classify  func(ops []TOp, ob tObs) string
+	seed      func(tg *txnGen) []TOp // optional first transaction populating the database
 }
 
 func runTxnHistories(o opts, p txnProfile) error {
@@ -65,8 +66,21 @@ func runTxnHistories(o opts, p txnProfile) error {
 		nt := 1 + g.Intn(p.ntxn)
 		for ti := 0; ti < nt; ti++ {
 			ops := tg.txn(p.maxOps)
+			if ti == 0 && p.seed != nil && g.Chance(0.8) {
+				ops = p.seed(tg)
+			}
 			before, beforeRefs := st, refs
 			ob := lab.run(ops)
+			for i := range ops {
+				// server-assigned uuids: the model is given the uuid the server reported
+				if ops[i].Kind == "insert" && ops[i].UUID == "" {
+					if i < len(ob.Results) && ob.Results[i].Kind == "uuid" {
+						ops[i].UUID = ob.Results[i].UUID
+					} else {
+						ops[i].UUID = gen.UUIDn(700000 + ti*16 + i)
+					}
+				}
+			}
 			if ob.Committed {
 				// rows that disappeared / changed beyond what the operations report
 				gone, changed, delCount, modCount := 0, 0, 0, 0
@@ -115,7 +129,11 @@ func runTxnHistories(o opts, p txnProfile) error {
 			var opTerms []string
 			var opJ []interface{}
 			for _, op := range ops {
-				opTerms = append(opTerms, op.coq(syms))
+				nm := "None"
+				if op.Kind == "insert" && op.Name != "" {
+					nm = fmt.Sprintf("(Some %d%%N)", syms.ID(op.Name))
+				}
+				opTerms = append(opTerms, "("+op.coq(syms)+", "+nm+")")
 				opJ = append(opJ, op.json())
 				w.Count("op:" + op.Kind)
 			}
